@@ -1,0 +1,1 @@
+//! Hooks for property C19 (empty unless needed).
